@@ -14,8 +14,10 @@ computes a sufficient amount, Theorems/C07 proves it sufficient).
 * `Builder.pushSync`       — `push_sync`
 * `Builder.pushAsync`      — `push_async` (flushes `sync_buf` first)
 * `Builder.takeChunks`     — `take_chunks`
-* `Builder.append`         — `append` (chunks of `other` are appended, **then** its `sync_buf`; `self.sync_buf`
-                              is *not* flushed first — this is what mis-orders `ErrorBoundary`, F-C07-2)
+* `Builder.append`         — `append` after the repairs fix-c07-2/3: `self.sync_buf` is flushed into `chunks` first when
+                              `other` holds an in-order chunk (any chunk that is not `OutOfOrder`), then `other.chunks`
+                              and `other.sync_buf` are appended, and `other.id` (its `next_id()` state) is taken over.
+                              `Builder.appendOld` is the code before the repairs (no flush: F-C07-2; id dropped: F-C07-3).
 * `Builder.finish`         — `finish`
 * `Builder.nextId`/`childId`/`writeMarker` — `next_id`, `child_id`, `write_chunk_marker`
 * `Builder.pushFallback`   — `push_fallback` (the fallback view is already rendered to a string)
@@ -37,7 +39,7 @@ computes a sufficient amount, Theorems/C07 proves it sufficient).
         `None`      ⇒ `pending_ooo.pop_front()`: ready ⇒ look for the opening marker **in `sync_buf`**:
                         found ⇒ in-place replacement (`spliceInPlace`: `.rev()` iteration, sync chunks appended in
                         that (reversed) order, other chunks `held.push_front` then `chunks.push_front` one by one;
-                        `replace` is NOT consulted here — F-C07-5);
+                        `replace = false` keeps the fallback text — fix-c07-5, `inPlaceBufOld` is the old text);
                         not found ⇒ `push_start`, `.rev()` iteration appending sync chunks / `push_front` of the
                         others (`spliceTemplate`; loop body of both = `spliceFn`), `push_end_with_nonce`; recurse.
                         not ready ⇒ `push_back` (rotation), yield `sync_buf` if non-empty else `Pending`;
@@ -196,6 +198,10 @@ structure Builder where
   id : Id := none
   deriving Repr, Inhabited
 
+def Chunk.isOoo : Chunk → Bool
+  | Chunk.ooo _ => true
+  | _ => false
+
 namespace Builder
 
 def new (id : Id) : Builder := { id := id }
@@ -211,8 +217,14 @@ def pushAsync (b : Builder) (p : PendAsync) : Builder :=
 
 def takeChunks (b : Builder) : List Chunk := b.flushed
 
-def append (b other : Builder) : Builder :=
+/-- `append` before fix-c07-2 / fix-c07-3 -/
+def appendOld (b other : Builder) : Builder :=
   { b with chunks := b.chunks ++ other.chunks, syncBuf := b.syncBuf ++ other.syncBuf }
+
+def append (b other : Builder) : Builder :=
+  let b := if other.chunks.any (fun c => !c.isOoo) then { b with syncBuf := [], chunks := b.flushed } else b
+  { b with chunks := b.chunks ++ other.chunks, syncBuf := b.syncBuf ++ other.syncBuf,
+           id := if other.id.isSome then other.id else b.id }
 
 /-- `finish`: the rest of `sync_buf` is merged into a trailing `Sync` chunk or pushed as a new one -/
 def finishChunks : List Chunk → Str → List Chunk
@@ -325,7 +337,13 @@ inductive Step where
 def yieldStep (b : Builder) (ifEmpty : Poll) : Step :=
   if b.syncBuf.isEmpty then Step.ret ifEmpty b else Step.ret (Poll.item b.syncBuf) { b with syncBuf := [] }
 
-/-- `pending_ooo.pop_front()` returned a ready future `p` (already removed from `b.pendingOoo`) -/
+/-- the in-place branch before fix-c07-5: `replace` was not consulted, the fallback was always deleted -/
+def inPlaceBufOld (before syncs after : Str) : Str := before ++ syncs ++ after
+
+/-- `pending_ooo.pop_front()` returned a ready future `p` (already removed from `b.pendingOoo`).
+    In place (fix-c07-5): `buf = before; if !replace { buf += replaced[opening.len()..end - start] }` — a `None` view
+    keeps its fallback and loses only the markers, as in the inline script (that slice panics when the closing
+    marker starts inside the opening one). -/
 def oooReadyStep (env : Env) (b : Builder) (p : PendOoo) : Step :=
   let r := resolveOoo env p
   match splitFirst (opening r.id) b.syncBuf with
@@ -334,9 +352,11 @@ def oooReadyStep (env : Env) (b : Builder) (p : PendOoo) : Step :=
     | none => Step.ret Poll.panic b
     | some (beforeC, after) =>
       if beforeC.length < before.length then Step.ret Poll.panic b
+      else if !r.replace && beforeC.length < before.length + (opening r.id).length then Step.ret Poll.panic b
       else
+        let kept := if r.replace then [] else beforeC.drop (before.length + (opening r.id).length)
         let sh := spliceInPlace r.chunks
-        Step.cont { b with syncBuf := before ++ sh.1 ++ after,
+        Step.cont { b with syncBuf := before ++ kept ++ sh.1 ++ after,
                            chunks := sh.2.foldl (fun d c => c :: d) b.chunks }
   | none =>
     let bd := spliceTemplate r.chunks (b.syncBuf ++ pushStart r.id) b.chunks
@@ -551,9 +571,10 @@ inductive View where
   | eb (vs : List View)
   deriving Repr, Inhabited
 
-/-- where a view is rendered: outside every `Suspense` (`top`), as the awaited children of a `Suspense`
-    (`direct`: a `Suspend` here has been resolved by `children.resolve()`), or inside the output of such a
-    `Suspend` (`nested`: `use_context::<SuspenseContext>()` is `Some`, nobody awaited it) -/
+/-- where a view is rendered: outside every `Suspense` (`top`) or as the awaited children of a `Suspense`
+    (`direct`: `children.resolve()` has resolved every `Suspend` here and — since fix-c07-4, `Suspend::resolve`
+    resolves its output too — every `Suspend` in their outputs).  `nested` is only used by `compileOld`: the output
+    of a `Suspend` under a `Suspense` before the repair (`use_context::<SuspenseContext>()` is `Some`, nobody awaited it). -/
 inductive Ctx where
   | top | direct | nested
   deriving DecidableEq, Repr
@@ -563,7 +584,7 @@ mutual
 def directDeps : View → List FId
   | .raw _ => []
   | .seq vs => directDepsL vs
-  | .suspend f _ => [f]
+  | .suspend f v => f :: directDeps v
   | .suspense _ _ _ => []
   | .eb vs => directDepsL vs
 def directDepsL : List View → List FId
@@ -581,8 +602,8 @@ def compile (ooo : Bool) : Ctx → View → List Op
       (Op.nextId ::
         (if ooo then [Op.fallback "<!>".toList, Op.ooo fut true (compile ooo .top v) none]
          else [Op.async fut (compile ooo .top v)]))]
-  | .direct, .suspend _ v => compile ooo .nested v
-  | .nested, .suspend f v => [Op.ite { deps := [f], tick := false } (compile ooo .nested v) []]
+  | .direct, .suspend _ v => compile ooo .direct v
+  | .nested, .suspend _ v => compile ooo .direct v
   | _, .suspense fb nonce vs =>
     let fut : Fut := { deps := directDepsL vs, tick := true }
     Op.nextId ::
@@ -592,6 +613,43 @@ def compile (ooo : Bool) : Ctx → View → List Op
 def compileL (ooo : Bool) : Ctx → List View → List Op
   | _, [] => []
   | c, v :: vs => compile ooo c v ++ compileL ooo c vs
+end
+
+/-! before fix-c07-4: `Suspend::resolve` did not resolve its output, so a `Suspense` waited only for its direct
+    `Suspend`s and a `Suspend` in their output that was still pending rendered nothing (F-C07-4) -/
+mutual
+def directDepsOld : View → List FId
+  | .raw _ => []
+  | .seq vs => directDepsOldL vs
+  | .suspend f _ => [f]
+  | .suspense _ _ _ => []
+  | .eb vs => directDepsOldL vs
+def directDepsOldL : List View → List FId
+  | [] => []
+  | v :: vs => directDepsOld v ++ directDepsOldL vs
+end
+
+mutual
+def compileOld (ooo : Bool) : Ctx → View → List Op
+  | _, .raw s => [Op.sync s]
+  | c, .seq vs => compileOldL ooo c vs
+  | .top, .suspend f v =>
+    let fut : Fut := { deps := [f], tick := false }
+    [Op.ite fut (compileOld ooo .top v)
+      (Op.nextId ::
+        (if ooo then [Op.fallback "<!>".toList, Op.ooo fut true (compileOld ooo .top v) none]
+         else [Op.async fut (compileOld ooo .top v)]))]
+  | .direct, .suspend _ v => compileOld ooo .nested v
+  | .nested, .suspend f v => [Op.ite { deps := [f], tick := false } (compileOld ooo .nested v) []]
+  | _, .suspense fb nonce vs =>
+    let fut : Fut := { deps := directDepsOldL vs, tick := true }
+    Op.nextId ::
+      (if ooo then [Op.fallback fb, Op.ooo fut true (compileOldL ooo .direct vs) nonce]
+       else [Op.async fut (compileOldL ooo .direct vs)])
+  | c, .eb vs => [Op.sub (compileOldL ooo c vs)]
+def compileOldL (ooo : Bool) : Ctx → List View → List Op
+  | _, [] => []
+  | c, v :: vs => compileOld ooo c v ++ compileOldL ooo c vs
 end
 
 mutual
